@@ -526,12 +526,13 @@ class BaseTrigger(ABC):
         if storage_last_execution:
             self._last_cron_execution_cache[condition_id] = storage_last_execution
 
-            # Check if the condition is satisfied with the accurate last execution time
-            context = CronContext(
-                timestamp=current_time, last_execution=storage_last_execution
-            )
-            if not condition.is_satisfied_by(context):
-                return None
+        # Check the condition against the accurate last execution time
+        # (also when it never ran: the schedule still has to match)
+        context = CronContext(
+            timestamp=current_time, last_execution=storage_last_execution
+        )
+        if not condition.is_satisfied_by(context):
+            return None
 
         # Try to atomically update the last execution time
         success = self.store_last_cron_execution(
